@@ -88,3 +88,5 @@ func must(err error) {
 		panic(fmt.Sprintf("harness: %v", err))
 	}
 }
+
+func ctxBg() context.Context { return context.Background() }
